@@ -314,17 +314,21 @@ class BinningConfig(BaseConfig, Immutable):
             This cosmology object is not stored with this instance, but should
             be managed by the top level :obj:`~yaw.Configuration` class.
         """
-        if edges is NotSet:
-            if method == "custom":
-                raise ConfigError("'method' is 'custom' but no bin edges provided")
+        if edges is NotSet and method == "custom":
+            raise ConfigError("'method' is 'custom' but no bin edges provided")
+
+        generate = any(value is not NotSet for value in (zmin, zmax, num_bins, method))
+        if edges is NotSet and (generate or not self.is_custom):
+            if method is NotSet:  # custom edges have no method to retain
+                method = BinMethod.linear if self.is_custom else self.method
             the_dict = dict()
             the_dict["zmin"] = self.zmin if zmin is NotSet else zmin
             the_dict["zmax"] = self.zmax if zmax is NotSet else zmax
             the_dict["num_bins"] = self.num_bins if num_bins is NotSet else num_bins
-            the_dict["method"] = self.method if method is NotSet else BinMethod(method)
+            the_dict["method"] = BinMethod(method)
 
-        else:
-            the_dict = dict(edges=edges)
+        else:  # new or retained custom bin edges
+            the_dict = dict(edges=self.edges if edges is NotSet else edges)
             the_dict["method"] = BinMethod.custom
 
         the_dict["method"] = str(the_dict["method"])
